@@ -22,6 +22,7 @@ pub mod c11;
 pub mod c12;
 pub mod pattern_model;
 pub mod c13;
+pub mod c14;
 pub mod c15;
 pub mod c16;
 pub mod calendar;
@@ -63,6 +64,7 @@ pub fn dispatch(prop: &str, tier: &str, seed: u64, only: Option<(String, u64)>) 
         "C11" => c11::run(&mut rep),
         "C12" => c12::run(&mut rep),
         "C13" => c13::run(&mut rep),
+        "C14" => c14::run(&mut rep),
         "C15" => c15::run(&mut rep),
         "C16" => c16::run(&mut rep),
         "C17" => c17::run(&mut rep),
